@@ -419,7 +419,7 @@ pub fn c04_faulted(ctx: &Ctx, out: &mut RunOut) -> Result<(), Violation> {
         }
         dump_image(&format!("c04-variant{vi}.pdf"), &img);
         h = simcore::mix(h, simcore::fnv(&img));
-        let entry = ctx.draw(F, 4, "entry-point");
+        let entry = ctx.draw(F, 5, "entry-point");
         let before = crate::alloc::snapshot();
         crate::alloc::reset_peak();
         let budget_req: usize = (16 << 20) + 4096 * img.len();
@@ -445,6 +445,24 @@ pub fn c04_faulted(ctx: &Ctx, out: &mut RunOut) -> Result<(), Violation> {
                     })
                 })?
                 .ok()
+            }
+            4 => {
+                // the file-based loader with an object filter (the other branch of the parallel closure)
+                ctx.count("entry-load-filtered");
+                fn filter(id: (u32, u16), o: &mut lopdf::Object) -> Option<((u32, u16), lopdf::Object)> {
+                    if id.0 % 5 == 3 && matches!(o, lopdf::Object::Stream(_)) {
+                        None
+                    } else {
+                        Some((id, o.clone()))
+                    }
+                }
+                let path = scratch_dir().join(format!("c04-{}.pdf", std::process::id()));
+                if std::fs::write(&path, &img).is_err() {
+                    continue;
+                }
+                let r = guarded("Document::load_filtered", || on_small_stack(ctx, || lopdf::Document::load_filtered(&path, filter)));
+                let _ = std::fs::remove_file(&path);
+                r?.ok()
             }
             _ => {
                 ctx.count("entry-incremental-load");
